@@ -107,6 +107,10 @@ class Executor(AccessMixin, BuiltinsMixin, StmtMixin, ExecutorBase):
             # positional view of a dict's keys (iteration order), nothing allocated: all(... for k in keys_of(d))
             d = self.ev(node.args[0], fr)
             return SV(NONE, Ty("list", (d.ty.elt(0),) if d.ty and d.ty.elt(0) else ()), ("lazyiter", self.dict_iter_desc("keys", d)))
+        if name == "key_at":
+            # the j-th key of a dict/set in iteration order (no definedness obligation: callers bound j by len(d))
+            d, j = self.ev(node.args[0], fr), self.ev(node.args[1], fr)
+            return SV(z3.Select(self.st.read("$dord", H.rid(d)), IV(j.term)), d.ty.elt(0) if d.ty else None)
         if name == "same_elements":
             a, b = self.ev(node.args[0], fr), self.ev(node.args[1], fr)
             return SV(mk_bool(self.list_eq(a, b)), Ty("bool"))
@@ -318,14 +322,15 @@ def havoc_written(ex: Executor, fields: set, frame_spec, fr: Frame, entry_alloc)
                     refs = None
                     break
                 sv = ex.spec_eval(e, fr) if isinstance(e, str) else e
-                refs.append(RID(sv.term))
+                refs.append(sv.term)
             if refs is None:
                 st.havoc_field(f)
                 continue
         a0 = entry_alloc
 
         def keep(r, refs=refs, a0=a0):
-            return z3.And(r < a0, *[r != x for x in refs])
+            # a frame expression that evaluates to None names no object
+            return z3.And(r < a0, *[z3.Or(z3.Not(Val.is_VRef(x)), r != RID(x)) for x in refs])
         st.havoc_field(f, keep_pred=keep)
     st.alloc = na
     # container sanity after havoc
@@ -591,15 +596,16 @@ def _check_frame(ex, c: Contract, fi, fr, short, wf):
             if "*" in allowed:
                 continue
             for e in allowed:
-                refs.append(RID(ex.with_heap(fr.entry_heap, fr.entry_locals, lambda e=e: ex.spec_eval(e, fr), owner=fr).term))
+                refs.append(ex.with_heap(fr.entry_heap, fr.entry_locals, lambda e=e: ex.spec_eval(e, fr), owner=fr).term)
         r = z3.Int("r!frame")
-        cond = z3.And(r >= 0, r < fr.entry_alloc, *[r != x for x in refs])
+        # every pre-existing index, ghost slots (negative) included; a frame expression that evaluates to None names no object
+        cond = z3.And(r < fr.entry_alloc, *[z3.Or(z3.Not(Val.is_VRef(x)), r != RID(x)) for x in refs])
         st.check(f"{ex.prop_id}/{short}/frame:{f}", z3.ForAll([r], z3.Implies(cond, z3.Select(cur, r) == z3.Select(old, r))),
                  "frame", wf)
 
 
 def run_script(repo: Repo, contracts: dict, prop_id: str, name: str, script, timeout_ms=None, max_paths=2000,
-               module="openpectus") -> FunctionReport:
+               module="openpectus", spec_funcs=None) -> FunctionReport:
     """Lemma over several calls of real functions: `script(ctx)` is executed once per path (decision replay); it calls
     repo functions through ctx.call(...) and emits obligations with ctx.check(...)."""
     from .api import Ctx
@@ -607,7 +613,7 @@ def run_script(repo: Repo, contracts: dict, prop_id: str, name: str, script, tim
     t0 = time.time()
     ex = Executor(repo, contracts, prop_id)
     ex.top_qualname = None
-    ex.spec_funcs = {}
+    ex.spec_funcs = spec_funcs or {}
     ex.bounded_used = False
     work = [[]]
     mi = repo.module(module) or next(iter(repo.modules.values()))
